@@ -225,12 +225,20 @@ func formatCells(lines []formatLine) {
 // "before" can be TokenNil, if the subject token is at the start of a sequence.
 // identContinuesNumber returns true if the given token is an identifier that
 // the scanner would take as the exponent part of a number literal if it
-// directly followed a number literal and a dot: "e" or "E" and then a digit.
+// directly followed a number literal and a dot: "e" or "E", an optional
+// minus sign (which is valid inside an identifier), and then a digit.
 func identContinuesNumber(tok *Token) bool {
 	if tok.Type != hclsyntax.TokenIdent || len(tok.Bytes) < 2 {
 		return false
 	}
-	return (tok.Bytes[0] == 'e' || tok.Bytes[0] == 'E') && tok.Bytes[1] >= '0' && tok.Bytes[1] <= '9'
+	if tok.Bytes[0] != 'e' && tok.Bytes[0] != 'E' {
+		return false
+	}
+	rest := tok.Bytes[1:]
+	if rest[0] == '-' {
+		rest = rest[1:]
+	}
+	return len(rest) > 0 && rest[0] >= '0' && rest[0] <= '9'
 }
 
 func spaceAfterToken(subject, before, after *Token) bool {
